@@ -399,9 +399,17 @@ class Sym:
         return A
 
     def roots_of(self, tree):
-        """(memory roots, var locals): locals whose contents the tree reads"""
+        """(memory roots, var locals): locals whose contents the tree reads.  The result of an opaque call is a value made at the
+        call: its root is the call's destination, not what the arguments were read from."""
         mem, var = set(), set()
-        for x in subtrees(tree):
+        st = [tree]
+        while st:
+            x = st.pop()
+            if not isinstance(x, tuple) or not x:
+                continue
+            if not isinstance(x[0], str):
+                st.extend(x)
+                continue
             if x[0] == "arg":
                 mem.add(x[1])
             elif x[0] == "var":
@@ -409,8 +417,10 @@ class Sym:
                 mem.add(x[1])
             elif x[0] == "call":
                 mem.add(x[4])
+                continue
             elif x[0] == "unk" and x[1] >= 0:
                 mem.add(x[1])
+            st.extend(y for y in x[1:] if isinstance(y, tuple))
         return mem, var
 
     def reads_memory(self, tree):
